@@ -57,7 +57,7 @@ def _mk(kind, rng: random.Random, body=None, set2=False):
     if kind.startswith("with"):
         w = int(kind[4])
         return {"op": "with", "which": w, "arg": rng.randrange(1 if w == 2 else 0, N_ARGS[w]),
-                "body": body if body is not None else [], "form": rng.choice(["with", "with", "decorator"])}
+                "body": body if body is not None else [], "form": rng.choice(["with", "with", "decorator", "shared-decorator"])}
     if kind.startswith("set"):
         w = int(kind[3])
         if set2 and rng.random() < 0.15:
@@ -138,6 +138,7 @@ def run_real(env, prog, init):
     env.write(init)
     log, records = [], []
     pokes = [0, 0, 0]
+    shared = {}
 
     def poke(which, v):
         pokes[which] += 1
@@ -167,17 +168,25 @@ def run_real(env, prog, init):
             except BaseException:  # noqa: BLE001 - the model's tryC catches everything
                 pass
         elif op == "with":
-            rec = {"which": c["which"], "arg": c["arg"], "pre": env.read(), "inside": None, "post": None,
+            rec = {"which": c["which"], "arg": c["arg"], "pre": env.read(), "inside": None, "end": None, "post": None,
                    "raised": False, "pokes_pre": list(pokes), "pokes_post": None}
             records.append(rec)
 
             def body():
                 rec["inside"] = env.read()
-                run_cmds(c["body"])
+                try:
+                    run_cmds(c["body"])
+                finally:
+                    rec["end"] = env.read()  # the settings as the body leaves them (completing or raising)
 
             try:
                 if c.get("form") == "decorator":
                     env.manager(c["which"], c["arg"])(body)()
+                elif c.get("form") == "shared-decorator":  # one decorator object per (manager, arg), re-used by nested / repeated blocks
+                    key = (c["which"], c["arg"])
+                    if key not in shared:
+                        shared[key] = env.manager(*key)
+                    shared[key](body)()
                 else:
                     with env.manager(c["which"], c["arg"]):
                         body()
@@ -222,4 +231,42 @@ def oracle(records):
         exp[r["which"]] = r["arg"]
         if r["inside"] is not None and -1 not in r["inside"] and -1 not in exp and r["inside"] != exp:
             bad.append((MANAGERS[r["which"]], "not-in-force-inside", r))
+        # "affect only code running inside them": leaving a block changes nothing but the block's own setting -
+        # the other two are, right after the exit, what they were when the body ended
+        if r.get("end") is not None:
+            for j in range(3):
+                if j != r["which"] and -1 not in (r["end"][j], r["post"][j]) and r["end"][j] != r["post"][j]:
+                    bad.append((MANAGERS[j], f"changed-by-exit-of-{MANAGERS[r['which']]}-block", r))
     return bad
+
+
+def _variants(prog):
+    """Smaller programs: one command deleted, or one container replaced by its body (at any depth)."""
+    for k, c in enumerate(prog):
+        yield prog[:k] + prog[k + 1:]
+        if "body" in c:
+            yield prog[:k] + c["body"] + prog[k + 1:]
+            for b in _variants(c["body"]):
+                yield prog[:k] + [dict(c, body=b)] + prog[k + 1:]
+
+
+def shrink(env, prog, init, key, budget=400):
+    """Greedy shrinking of a failing program: keeps the failure key (judged by `oracle` on the real run)."""
+    def fails(p_):
+        try:
+            _, _, _, recs = run_real(env, p_, init)
+        except Exception:  # noqa: BLE001
+            return False
+        return any(f"{m}:{k}" == key for m, k, _ in oracle(recs))
+
+    improved = True
+    while improved and budget > 0:
+        improved = False
+        for cand in _variants(prog):
+            budget -= 1
+            if budget <= 0:
+                break
+            if fails(cand):
+                prog, improved = cand, True
+                break
+    return prog
